@@ -132,7 +132,10 @@ func body() {
 		for _, f := range []fl{
 			{"a", "a_values_nontrivial", 300, 3000},
 			{"b", "b_cases_nontrivial", 150, 1500},
-			{"c", "c_bodies_accepted_by_validation", 150, 1000},
+			{"c", "c_bodies_generated", 300, 2500},
+			// since the execute endpoint validates type and extension only the
+			// well-formed share of the bodies passes validation
+			{"c", "c_bodies_accepted_by_validation", 25, 200},
 			{"d", "d_histories_completed", 2, 20},
 			{"d", "d_histories_nontrivial", 1, 12},
 		} {
